@@ -185,7 +185,11 @@ def get_proxy_info(
     if value:
         proxy = urlparse(value)
         auth = (
-            (unquote(proxy.username), unquote(proxy.password))
+            (
+                unquote(proxy.username),
+                # http://user@proxy: a user name without password
+                unquote(proxy.password) if proxy.password is not None else None,
+            )
             if proxy.username
             else None
         )
